@@ -266,6 +266,18 @@ def check_structure(pk, shape, pattern, sub=False):
         if nslots == 0:
             if r1 is packer._obj and isinstance(r1, (list, dict, Obj)):
                 return "structure without tensors: construct returns the Packer's internal object"
+            # the single-tensor interface on a structure without tensors: an empty tensor in, a fresh copy out
+            try:
+                packer.get_param_tensor(unique=unique)
+            except Exception:      # nothing to concatenate: the library may refuse, that is not the point here
+                pass
+            else:
+                f1 = packer.construct_from_tensor(st.vec("flat_empty", (0,), (0,)), unique=unique)
+                f2 = packer.construct_from_tensor(st.vec("flat_empty", (0,), (0,)), unique=unique)
+                if isinstance(f1, (list, dict, Obj)) and (f1 is packer._obj or f1 is f2):
+                    return "structure without tensors: construct returns the Packer's internal object (single-tensor interface)"
+                if not _same_shape_copied(obj, f1):
+                    return "single-tensor rebuild of a structure without tensors does not copy the structure"
         if not _same_shape_copied(obj, r1):
             return "rebuilt structure does not have the same shape / copied non-tensor content (unique=%s)" % unique
         got = _slots(r1, [])
